@@ -192,7 +192,11 @@ fn check(prop: &str, tier: &str, seed: u64) -> i32 {
 }
 
 fn main() {
-    std::panic::set_hook(Box::new(|_| {}));
+    if std::env::var("VERIF_PANIC_VERBOSE").is_ok() {
+        std::panic::set_hook(Box::new(|i| eprintln!("PANIC: {}", i)));
+    } else {
+        std::panic::set_hook(Box::new(|_| {}));
+    }
     let args: Vec<String> = std::env::args().collect();
     if args.len() < 2 {
         usage();
